@@ -37,7 +37,7 @@ ASSUMPTIONS = [
 ]
 
 SRC_FL = ["list", "seq", "iter", "agen", "aclass", "aplain", "tuple", "tuplesub", "aeager", "aeagerstop", "reiter", "areiter", "aproxy"]
-FN_FL = ["def", "async", "partial", "obj", "objaw", "falsyobj", "eqobj", "unhashobj", "aeqobj", "gencoro", "classaw"]
+FN_FL = ["def", "async", "partial", "obj", "objaw", "falsyobj", "eqobj", "unhashobj", "aeqobj", "gencoro", "classaw", "defcoro", "defcoro"]
 ASYNC_SRC = {"agen", "aclass", "aplain", "aeager", "aeagerstop", "areiter", "aproxy"}
 ALL = ITER_TOOLS + AGG_TOOLS
 
@@ -110,7 +110,16 @@ def is_async_shape(obj):
     return inspect.isawaitable(obj) or hasattr(obj, "__anext__") or hasattr(obj, "__aenter__")
 
 
-def check_one(c, base_view):
+def _calls(log):
+    """how often the BODY of each callable ran (an awaitable that is returned but never awaited runs nothing)"""
+    out = {}
+    for e in log:
+        if e[0] == "call":
+            out[e[1]] = out.get(e[1], 0) + 1
+    return out
+
+
+def check_one(c, base_view, base_calls=None):
     tool = c["tool"]
     # type oracle: what does the library callable return before awaiting / iterating?
     b = build(c, "a")
@@ -129,13 +138,17 @@ def check_one(c, base_view):
         fl = [s["fl"] for s in c["srcs"]] + [f["fl"] for f in c["fns"].values()]
         raise Violation(f"C03/{tool}/flavour-changes-outcome",
                         f"flavours={fl} event {i}: flavoured={x} all-sync={y}", case=c)
+    if base_calls is not None and _calls(ba.ctx.log) != base_calls:
+        fl = [s["fl"] for s in c["srcs"]] + [f["fl"] for f in c["fns"].values()]
+        raise Violation(f"C03/{tool}/flavour-changes-how-often-a-callable-runs",
+                        f"flavours={fl}: bodies ran {_calls(ba.ctx.log)} vs all-sync {base_calls}", case=c)
 
 
 def check(case):
     if case.get("single"):
         base = apply_assign(case, baseline_assign(case))
-        base_view = consumer_view(run_async(base)[0].ctx.log)
-        check_one(case, base_view)
+        base_log = run_async(base)[0].ctx.log
+        check_one(case, consumer_view(base_log), _calls(base_log))
         return None
     work = case
     if case.get("fault_pick") is not None:
@@ -156,12 +169,13 @@ def check(case):
             work.pop("single", None)
             work["assigns"] = case["assigns"]
     base = apply_assign(work, baseline_assign(work))
-    base_view = consumer_view(run_async(base)[0].ctx.log)
+    base_log = run_async(base)[0].ctx.log
+    base_view, base_calls = consumer_view(base_log), _calls(base_log)
     nontrivial = []
     for k, assign in enumerate(work["assigns"]):
         c = apply_assign(work, assign)
         c["single"] = True
-        check_one(c, base_view)
+        check_one(c, base_view, base_calls)
         fls = assign["src"] + assign["fn"]
         has_async = any(f in ASYNC_SRC or f in ("async", "partial", "obj", "objaw") for f in fls)
         has_sync = any(f in ("list", "seq", "iter", "def", "tuple", "tuplesub") for f in fls)
